@@ -47,8 +47,8 @@ theorem translate_rank (cores : List CoreTy) (i : Nat) : translateIndex i 0 core
 theorem rank_succ (cores : List CoreTy) (i : Nat) (c : CoreTy) (h : cores[i]? = some c) :
     rank cores (i + 1) = rank cores i + (if c.shared then 1 else 0) := by
   unfold rank
-  rw [List.take_succ, h]
-  cases c.shared <;> simp [List.filter_append, *]
+  rw [List.take_add_one, h]
+  cases hc : c.shared <;> simp [List.filter_append, hc]
 
 theorem rank_mono (cores : List CoreTy) (i d : Nat) : rank cores i ≤ rank cores (i + d) := by
   induction d with
@@ -57,7 +57,7 @@ theorem rank_mono (cores : List CoreTy) (i d : Nat) : rank cores i ≤ rank core
       cases h : cores[i + d]? with
       | none =>
           have : rank cores (i + d + 1) = rank cores (i + d) := by
-            unfold rank; rw [List.take_succ, h]; simp
+            unfold rank; rw [List.take_add_one, h]; simp
           rw [← Nat.add_assoc, this]; exact ih
       | some c => rw [← Nat.add_assoc, rank_succ cores (i + d) c h]; omega
 
